@@ -9,6 +9,9 @@ CONSTANTS LimitSet, Hist, Policy
 BigL == 1073741824
 MCCfgs == {[role |-> r, pmce |-> FALSE, limit |-> L, hmode |-> "default", herrAt |-> 0, policy |-> Policy]
              : r \in {"server", "client"}, L \in LimitSet \cup {BigL}}
+          \* the limit counts payload bytes ON THE WIRE: a compressed message of at most L wire bytes can be read in full
+          \* however large it inflates (limit 1000; 3000 bytes of the harness text deflate to about 470)
+          \cup {[role |-> r, pmce |-> TRUE, limit |-> 1000, hmode |-> "default", herrAt |-> 0, policy |-> Policy] : r \in {"server", "client"}}
 
 D(c, fin, n) == Fr(c, OpBin, fin, n)
 C(c, fin, n) == Fr(c, OpCont, fin, n)
@@ -44,7 +47,15 @@ Claims(c) ==
    << D(c, FALSE, 1), [C(c, TRUE, 268435456) EXCEPT !.short = 3] >>,
    << D(c, FALSE, 2), Ping(c), [C(c, FALSE, 16777216) EXCEPT !.short = 1] >>}
 
+Z(f, v, plain) == [f EXCEPT !.r1 = TRUE, !.comp = v, !.plain = plain]
+CompWithin(c) ==
+  {<< Z(D(c, TRUE, 0), "std6", 3000) >>,
+   << Z(D(c, TRUE, 0), "std9", 1500), D(c, TRUE, 7) >>,
+   << Z(D(c, FALSE, -3), "std6", 3000), Ping(c), C(c, FALSE, 1), C(c, TRUE, 0) >>,
+   << D(c, TRUE, 200), Z(D(c, TRUE, 0), "std1", 2000) >>}
+
 MCStreams(c) ==
+  IF c.pmce THEN CompWithin(c) ELSE
   IF c.limit = BigL THEN {h \o t : h \in {<< >>, << D(c, TRUE, 5) >>}, t \in Claims(c)} ELSE
                 {h \o t \o a : h \in UpTo(Within(c), Hist), t \in Within(c) \cup Over(c),
                                a \in {<< >>, << D(c, TRUE, 1) >>}}
